@@ -73,7 +73,7 @@ def run(ctx, repo):
                             '(int(100*x) is one less than 100x for about 1 decimal in 12)' % desc)
             else:
                 ctx.ok('R2', '%s::%s: %s guarded (%s)' % (rel, q, k[:50], desc))
-    ctx.floor('rounding sites in the junior scoring functions', n_sites, 6)
+    ctx.floor('rounding sites in the junior scoring functions', n_sites, 4)
     # ---- R3 keys: accepted and in normal form
     D = P.dfa('PAT_EVENT_CODE')
     D_REL = P.dfa('PAT_RELAYS')
@@ -192,6 +192,33 @@ def run(ctx, repo):
                 continue
             ctx.info('%s: module-level %s is defined and never used (cross-reference)' % (rel, nm))
 
+    # ---- R4b the m:ss.xx text form: every system whose tables hold times of a minute or more converts the mark of its timed events
+    # with parse_hms (float() refuses a colon).  Which functions must do so is read from the data: Bulgarian timed tables reach 60 s,
+    # QuadKids run rows do, Tyrving race standards do
+    need = []
+    bsc = repo.const(BUL, 'scores')
+    if any(isinstance(t, dict) and isinstance(t.get('min'), int) and isinstance(t.get('max'), int) and t['min'] > t['max'] and t['min'] >= 6000
+           for t in bsc.values()):
+        need.append((BUL, 'score'))
+    need += [(QK, 'qkids_score'), (TYR, 'TyrvingCalculator.race_points')]
+    for rel_, q_ in need:
+        f_ = repo.module(rel_).func(q_)
+        marks = {a.arg for a in f_.args.args} - {'self'}
+        # names derived from the parameters by plain re-binding (v = perf; v = v.replace(...))
+        derived = set(marks)
+        for _ in range(3):
+            for n in ast.walk(f_):
+                if isinstance(n, ast.Assign) and len(n.targets) == 1 and isinstance(n.targets[0], ast.Name) \
+                        and any(isinstance(x, ast.Name) and x.id in derived for x in ast.walk(n.value)):
+                    derived.add(n.targets[0].id)
+        calls = [c for c in ast.walk(f_) if isinstance(c, ast.Call) and call_name(c) == 'parse_hms' and c.args
+                 and any(isinstance(x, ast.Name) and x.id in derived for x in ast.walk(c.args[0]))]
+        if calls:
+            ctx.ok('R4', '%s: the mark of a timed event goes through parse_hms (m:ss.xx text is a documented form)' % q_)
+        else:
+            ctx.finding('R4', '%s::%s::timed marks not parsed as m:ss' % (rel_, q_), rel_, f_.lineno,
+                        '%s no longer converts the mark of its timed events with parse_hms; its tables hold times of a minute and more, and the '
+                        "documented text form '1:55.31' is refused by float()" % q_, "'1:55.31'")
     # ---- R7 formula shape: the symbolic normal form of each linear / piecewise-linear formula equals the reference form
     import json as _json
     import os as _os
@@ -221,7 +248,7 @@ def run(ctx, repo):
                             q, [e for e in eff if e not in want['effects']], [e for e in want['effects'] if e not in eff]))
         else:
             ctx.ok('R7', '%s: %d return form(s), %d conditional adjustment(s) equal the reference normal form' % (q, len(texts), len(eff)))
-    ctx.floor('reference formulas compared', n_f, 4)
+    ctx.floor('reference formulas compared', n_f, 5)
     # the kinds that share the piecewise formula still do
     tc = repo.module('athlib/tyrving_score.py').cls('TyrvingCalculator')
     alias = {st.targets[0].id: st.value.id for st in tc.body if isinstance(st, ast.Assign) and isinstance(st.targets[0], ast.Name)
